@@ -170,9 +170,8 @@ theorem finishFail_inv {hist : List Ev} {s : S} {it : Item} {rest : List Item} (
     refine invR_weaken I (fun _ => Nat.le_refl _) (fun _ => Nat.le_refl _) (fun _ => Nat.le_refl _) ?_
     intro p; simp only [mD, finishFail, List.countP_cons, isCompI]; simp
   | recI pid msg =>
-    obtain ⟨e1, e2, e3, _, e5⟩ := waitRel_meas s pid msg
-    refine invR_weaken I (fun p => by simp [mA, finishFail, e1]) (fun p => by simp [mR, finishFail, e2]) (fun p => by simp [finishFail, e5]) ?_
-    intro p; simp only [mD_eq, finishFail, e5, stored2, e3, List.countP_cons, isCompI]; simp
+    refine invR_weaken I (fun _ => Nat.le_refl _) (fun _ => Nat.le_refl _) (fun _ => Nat.le_refl _) ?_
+    intro p; simp only [mD, finishFail, List.countP_cons, isCompI]; simp
   | compI pid msg =>
     obtain ⟨e1, e2, e3, _, e5⟩ := waitRel_meas s pid msg
     refine invR_weaken I (fun p => by simp [mA, finishFail, e1]) (fun p => by simp [mR, finishFail, e2]) (fun p => by simp [finishFail, e5]) ?_
@@ -239,7 +238,7 @@ theorem inv_step (hist : List Ev) (s : S) (e : Ev) (s' : S) (I : Inv hist s) (h 
       · intro p; simp [isPuback, isRxPub, mA, qcount]
       · intro p; simp [isPubrec, isRxPub, mR, qcount]
       · intro p; simp [isPubcomp, isGoodRel, mC, qcount, fastN, e4]
-      · intro p; simp only [isDeliver2, isGoodRel, mD, List.countP_append, compItems_count, recItems_count, e3, e6, stored2, e5, fastN, e4, qcount, List.countP_nil, Bool.toNat_false]
+      · intro p; simp only [isDeliver2, isGoodRel, mD, List.countP_append, compItems_count, e3, e6, stored2, e5, fastN, e4, qcount, List.countP_nil, Bool.toNat_false]
         omega
     split
     · exact hs s rfl rfl rfl rfl rfl rfl
